@@ -4,6 +4,7 @@ C06 — every compiled program is accepted by the solver it targets.  Property t
 programs parse and ground is decided with the real clingo / telingo on every output of the generators and the corpus.
 -/
 import Cnl2aspModel.Compiler.Value
+import Cnl2aspModel.Cnl.Safety
 
 namespace Cnl2aspModel.Value
 
@@ -106,3 +107,16 @@ example : convertValue [] "red".toList = "\"red\"".toList ∧ convertValue [] "X
     convertValue ["kk".toList] "kk".toList = "kk".toList ∧ convertValue [] "12".toList = "12".toList := by decide
 
 end Cnl2aspModel.Value
+
+
+namespace Cnl2aspModel.Core.Exec
+open Asp Core
+
+/-- safety layer, core fragment: every rule printed for a range-restricted core sentence (facts, choices, definitions,
+prohibitions, requirements — the decidable check `safeB` is evaluated by the driver on every generated specification) satisfies
+the solver's safety condition: each variable of the rule occurs in a positive body atom, each variable of a choice element in a
+positive atom of the body or of the element's condition.  The compiler's invented variables are variables of these rules. -/
+theorem C06_core_safe (σ : Sentence) (h : Sentence.safeB σ = true) : ∀ r ∈ σ.rules, RuleSafe r :=
+  rules_safe σ (Sentence.safeB_sound σ h)
+
+end Cnl2aspModel.Core.Exec
